@@ -1,7 +1,7 @@
 (** Statement pins for C17: the headline theorems must have exactly these types. *)
 From RsM Require Import Lib.MachInt Model.Headers Model.Codecs Model.CodecsSpec
-  Model.CodecsCheckin Model.CodecsBdx Model.CodecsBle Model.CodecsMdns
-  Proofs.HeadersFacts Proofs.CodecsManual Proofs.CodecsCheckinFacts Proofs.CodecsMdnsFacts Props.C17.
+  Model.CodecsCheckin Model.CodecsBdx Model.CodecsBle Model.CodecsMdns Model.CodecsCertExt
+  Proofs.HeadersFacts Proofs.CodecsManual Proofs.CodecsCheckinFacts Proofs.CodecsMdnsFacts Proofs.CodecsCertExtFacts Props.C17.
 Open Scope N_scope.
 
 Check (C17_plain_roundtrip : forall (h : plain_hdr) (rest : list N),
@@ -83,3 +83,7 @@ Check (C17_mdns_commissionable_record_roundtrip : forall a : comm_adv,
          (if ca_enhanced a then 2 else 1)).
 Check (C17_mdns_hex_id_roundtrip : forall v : N,
   v < two64 -> parse_hex_u64 (hex16 v) = Some v).
+Check (C17_cert_eku_roundtrip : forall ids : list N,
+  eku_legal ids -> eku_read (eku_value ids) = Some ids).
+Check (C17_cert_key_usage_roundtrip : forall k : N,
+  k < 512 -> ku_read (ku_value k) = Some k).
